@@ -34,7 +34,9 @@ MANIFEST = {
                  'plus algebraic laws of the numeric kernels on generated '
                  'int/float arguments',
     'category': 'exploration',
-    'text': 'lift: an operator table is built by introspection (public '
+    'text': 'table: every row of the operator table x spelling x '
+            'receiver kind is applied once to fixed operands (bounded-'
+            'exhaustive). lift: an operator table is built by introspection (public '
             'methods and dunders of AbstractObject incl. reflected forms, '
             'every @scbuiltin of sc3.base.builtins); Hypothesis draws an '
             'operator, a spelling (method, Python operator, number on the '
@@ -61,10 +63,12 @@ MANIFEST = {
             'arguments of n-ary operators, result container types.',
 }
 RULE = (
+    'table: enumeration of every operator row x spelling x receiver kind '
+    'with two fixed operand sets (never counted as non-trivial). '
     'lift: composite strategy picks arity class (unary 25 / binary 50 / '
     'n-ary 25 %), an operator row of the introspected table, one of its '
     'spellings, operand kinds (kind+number, number+kind, kind+kind, two '
-    'different kinds 40 % of binaries) and operand trees (leaf, or with '
+    'different kinds 50 % of binaries) and operand trees (leaf, or with '
     '35 % a composed operand of the same kind); numbers are ints in '
     '[-8, 8], dyadic floats k/4, and 6 % specials (inf, nan, -0.0, 1e6, '
     '0.1). Non-trivial = at least two non-number operands and (two '
@@ -841,7 +845,8 @@ def lift_case(draw):
         elif row.arity == 'bin':
             shape = draw(st.sampled_from(
                 ['kn', 'nk', 'nk', 'nk', 'kk', 'kk', 'mix', 'mix', 'mix',
-                 'mix'] + (['kk', 'kk'] if k1 == 'lst' else [])))
+                 'mix', 'mix', 'mix'] +
+                (['kk', 'kk', 'kk'] if k1 == 'lst' else [])))
             can_left = row.src == 'b' or (row.src == 'd' and row.reflected)
             if shape == 'nk' and not can_left:
                 shape = 'kn'
